@@ -16,3 +16,49 @@ func writeFiles(dir string, files map[string]string) {
 		_ = os.WriteFile(p, []byte(content), 0o644)
 	}
 }
+
+// Diag is one decoded diagnostic of a PublishDiagnostics notification.
+type Diag struct {
+	StartLine, StartChar, EndLine, EndChar int
+	Code, Message, Source                  string
+	Severity                               int
+}
+
+func parseDiags(js string) []Diag {
+	if js == "" {
+		return nil
+	}
+	var p struct {
+		Diagnostics []struct {
+			Range struct {
+				Start struct{ Line, Character int }
+				End   struct{ Line, Character int }
+			}
+			Severity int
+			Code     any
+			Source   string
+			Message  string
+		}
+	}
+	if err := json.Unmarshal([]byte(js), &p); err != nil {
+		return nil
+	}
+	var out []Diag
+	for _, d := range p.Diagnostics {
+		code := ""
+		if d.Code != nil {
+			code = fmtAny(d.Code)
+		}
+		out = append(out, Diag{d.Range.Start.Line, d.Range.Start.Character, d.Range.End.Line, d.Range.End.Character, code, d.Message, d.Source, d.Severity})
+	}
+	return out
+}
+
+func fmtAny(v any) string {
+	switch x := v.(type) {
+	case string:
+		return x
+	}
+	b, _ := json.Marshal(v)
+	return string(b)
+}
